@@ -16,9 +16,9 @@
    (Proof: the reference index is exactly the reverse of the resolved references - Table/RefsProofs.v; the walk of an
    operation is the backward closure of the symbol being inserted or removed; adding a symbol completes exactly the
    closures of symbols that reach it and leaves the others as they were; removing it breaks exactly those.)
-   PARTIAL: the strict load/unload ALTERNATION per instance (no notification is sent twice in a row) is not a Coq
-   theorem; it is evaluated after every operation of every generated history on the implementation (a Go oracle that
-   recomputes the closure from the specs) and against the model (per-instance notification sequences must coincide).
+   C07_alternation: along the same histories every load notification finds its instance inactive and every unload
+   notification finds it active, so for each instance the notifications strictly alternate, starting with a load
+   (uses: the walk never lists a symbol twice, cycles included).
    The history condition is computable (wf2_from_b); every generated history of the correspondence run meets it. *)
 From Coq Require Import List NArith ZArith Bool.
 From Uf Require Import Table.Table Table.TableProofs Table.ClosureProofs Table.OrderProofs Table.RefsProofs Table.ActiveProofs.
@@ -118,3 +118,9 @@ Example C07_ex_active :
   wf2_from t_init ops /\
   map (fun n => active_insts (events (t_run (firstn n ops)))) [1; 2; 3; 4; 5] = [[]; []; [0; 1; 2]; [3; 1; 2]; []].
 Proof. cbv zeta. split; [apply wf2_from_b_sound; vm_compute; reflexivity|vm_compute; reflexivity]. Qed.
+
+Theorem C07_alternation : forall ops, wf2_from t_init ops ->
+  forall p e q, events (t_run ops) = p ++ e :: q ->
+  match e with ELoad i => ~ In i (active_insts p) | EUnload i => In i (active_insts p) | _ => True end.
+Proof. intros ops W p e q E. exact (notifications_alternate ops W p e q E). Qed.
+Print Assumptions C07_alternation.
